@@ -778,7 +778,14 @@ fn ntt120_vec_znx_big_normalize_cross_assign<O, R, A, BE>(
                         nfc_extract_digit_assignmul::<O>(res_acc_left, scale, res_slice, a_carry);
                     }
                     BE::nfc_middle_step_assign(res_base2k, 0, res_slice, res_carry);
-                    nfc_add_assign(res_carry, a_carry);
+                    // `res_carry` holds the carry of normalising this result limb: it is *added* to the limbs above whatever the
+                    // direction, while the part of `a` above its top limb (`a_carry`) is added or subtracted. The loop below applies
+                    // its carry with `O`, so for the subtraction the result's own carry enters with the opposite sign.
+                    if O::SUB {
+                        res_carry.iter_mut().zip(a_carry.iter()).for_each(|(rc, ac)| *rc = ac.wrapping_sub(*rc));
+                    } else {
+                        nfc_add_assign(res_carry, a_carry);
+                    }
                     break 'outer;
                 }
 
